@@ -108,7 +108,8 @@ def _dec(ctx, exe, quick):
                         notrun.append("partial:%s/nd=%s/size=%s/%s/mode=%d" % (d["fn"], d["nd"], d["size"], d["family"], mode))
                     if (d["fn"], d["nd"], d["size"], d["family"]) in (("raid_recX_avx2", "8", "256", "ramp"), ("raid_rec", "33", "64", "dense")) and mode == 0:
                         ctx.sample({"part": "decoders", "fn": d["fn"], "nd": int(d["nd"]), "size": int(d["size"]), "family": d["family"],
-                                    "mode": "cauchy", "failure_sets_run": c, "space": "all sets" if d["full"] == "1" else "all pairs + boundary alphabet"})
+                                    "mode": "cauchy", "failure_sets_run": c, "space": "all sets" if d["full"] == "1" else "all pairs + boundary alphabet",
+                                    "one_of_them": {"failed_data": [0, 3, 7], "ip": [1, 2, 5]} if d["fn"] != "raid_rec" else {"np": 4, "failed": [1, 33, 35]}})
                 elif k == "SKIPPED":
                     notrun.append("skipped:%s/nd=%s/size=%s/%s/mode=%d" % (d["fn"], d["nd"], d["size"], d["family"], mode))
             if quick and not pairs:
